@@ -224,6 +224,17 @@ fn walk(v: &Value, path: &mut Path, f: &mut dyn FnMut(&Path, &Value)) {
     }
 }
 
+/// Paths of all numeric leaves of a representation.
+pub fn numeric_leaves(v: &Value) -> Vec<Path> {
+    let mut out = vec![];
+    walk(v, &mut vec![], &mut |p, x| {
+        if x.is_number() {
+            out.push(p.clone());
+        }
+    });
+    out
+}
+
 /// Representations that could not be taken apart (a field could not be located): the inputs that would
 /// have been derived from them are skipped, and the evidence says so.
 pub static UNLEARNABLE: std::sync::Mutex<Vec<String>> = std::sync::Mutex::new(Vec::new());
